@@ -149,6 +149,10 @@ int vf_open(const char *path, int flags, ...)
 int vf_close(int fd)
 {
   env_step();
+  /* C02: lock/sendmutex (descriptor 3 in this model) is what keeps a second daemon out; it
+   * must stay open - and thereby locked - as long as this daemon runs, also while it is
+   * only draining its last deliveries after TERM */
+  CHECK(fd != 3, "C02: the daemon never gives up lock/sendmutex while it is running");
   if (fd >= 10) { --rd_open; if (fd == cur_rfd) cur_rfd = -1; fifo_last_close(); }
   return 0;
 }
